@@ -81,17 +81,8 @@ def main(argv=None):
         with open(p, encoding="utf8") as f:
             d = json.load(f)
         reg_cases.append(d["case"] if "case" in d else d)
-    n_reg = 0
-    for case in reg_cases:
-        try:
-            core.run_case(mod, case, rec, known_keys)
-            n_reg += 1
-        except core.Violation as v:
-            fail = (case, v.sub, v.msg)
-            break
-        except Exception:
-            error = traceback.format_exc()
-            break
+    n_reg, fail, error = core.run_cases_isolated(mod, reg_cases, rec,
+                                                 known_keys)
     subruns.append({"name": "pinned regression cases", "cases": n_reg,
                     "exhaustive": False})
 
@@ -204,16 +195,16 @@ def _replay(core, mod, prop, path, known_keys):
         d = json.load(f)
     case = d["case"] if "case" in d else d
     rec = core.Recorder()
-    try:
-        core.run_case(mod, case, rec, known_keys)
-    except core.Violation as v:
-        print("failed sub-check: %s" % v.sub)
-        print("detail: %s" % v.msg[:4000])
+    # (in a child process: a replayed crash must not take the runner down)
+    n, fail, error = core.run_cases_isolated(mod, [case], rec, known_keys, 1)
+    if fail is not None:
+        print("failed sub-check: %s" % fail[1])
+        print("detail: %s" % fail[2][:4000])
         print("VIOLATION property=%s replay=%s" % (prop, os.path.relpath(
             path, core.VERIF_DIR)))
         return 1
-    except Exception:
-        traceback.print_exc()
+    if error is not None:
+        sys.stdout.write(error + "\n")
         print("HARNESS-ERROR property=%s" % prop)
         return 2
     print("OK property=%s replay passes" % prop)
